@@ -52,10 +52,71 @@ func setOpsCase(r *rand.Rand, n int) *Case {
 	return cs
 }
 
+// setOpsShapes enumerates every three-level nesting  viewer = (f op3 d), f = (e op2 c), e = (a op1 b)
+// over union / intersection / exclusion with both operand orders at the two upper levels (108 shapes),
+// each with `per` wildcard-rich tuple assignments: negative information produced at the bottom has to
+// survive two more levels whatever they are.
+func setOpsShapes(r *rand.Rand, per int) []*Case {
+	mk := func(k string, x, y *Rewrite) *Rewrite {
+		if k == "diff" {
+			return &Rewrite{K: "diff", Base: x, Sub: y}
+		}
+		return &Rewrite{K: k, Ch: []*Rewrite{x, y}}
+	}
+	comp := func(n string) *Rewrite { return &Rewrite{K: "computed", Rel: n} }
+	ops := []string{"diff", "inter", "union"}
+	var out []*Case
+	n := 0
+	for _, o1 := range ops {
+		for _, o2 := range ops {
+			for _, sw2 := range []bool{false, true} {
+				for _, o3 := range ops {
+					for _, sw3 := range []bool{false, true} {
+						m := &Model{Types: []string{"user", "group", "folder", "doc"}, Conds: []CondDef{}}
+						for _, b := range []string{"a", "b", "c", "d"} {
+							m.Rels = append(m.Rels, RelDef{T: "doc", R: b, Rw: &Rewrite{K: "this"}, Restr: []Restr{{T: "user"}, {T: "user", WC: true}}})
+						}
+						e := mk(o1, comp("a"), comp("b"))
+						f := mk(o2, comp("e1"), comp("c"))
+						if sw2 {
+							f = mk(o2, comp("c"), comp("e1"))
+						}
+						vw := mk(o3, comp("f1"), comp("d"))
+						if sw3 {
+							vw = mk(o3, comp("d"), comp("f1"))
+						}
+						m.Rels = append(m.Rels, RelDef{T: "doc", R: "e1", Rw: e, Restr: []Restr{}}, RelDef{T: "doc", R: "f1", Rw: f, Restr: []Restr{}},
+							RelDef{T: "doc", R: "f2", Rw: comp("f1"), Restr: []Restr{}}, RelDef{T: "doc", R: "viewer", Rw: vw, Restr: []Restr{}})
+						for k := 0; k < per; k++ {
+							n++
+							cs := &Case{N: -5000 - n, Model: m}
+							for _, b := range []string{"a", "b", "c", "d"} {
+								if r.Intn(2) == 0 {
+									cs.Tuples = append(cs.Tuples, Tuple{O: Obj{"doc", "1"}, R: b, U: Subj{"user", "*", ""}, Cctx: Ctx{}})
+								}
+								for _, u := range []string{"a", "b"} {
+									if r.Intn(5) < 2 {
+										cs.Tuples = append(cs.Tuples, Tuple{O: Obj{"doc", "1"}, R: b, U: Subj{"user", u, ""}, Cctx: Ctx{}})
+									}
+								}
+							}
+							out = append(out, cs)
+						}
+					}
+				}
+			}
+		}
+	}
+	return out
+}
+
 // runSetOps: ListUsers, Check and ListObjects over nested set operations with wildcards.
 func runSetOps(ctx context.Context, v *Variants, rec *Recorder, run *Run, r *rand.Rand, cases int, what string) {
+	all := setOpsShapes(r, run.Pick(4, 12))
 	for i := 0; i < cases; i++ {
-		cs := setOpsCase(r, -100-i)
+		all = append(all, setOpsCase(r, -100-i))
+	}
+	for _, cs := range all {
 		if err := v.Base.Setup(ctx, cs.Model, cs.Tuples); err != nil {
 			continue // a generated model the server refuses is not a case
 		}
